@@ -1,7 +1,7 @@
 #!/usr/bin/env python3
 """Deterministic generator of the Go struct-type corpus for C04 (request binding).
 
-  python3 gen_types.py [N] > types_gen.go        (N top-level types, default 400)
+  python3 gen_types.py [N [R]] > types_gen.go    (N grammar types, default 400, then R request-shaped types, default 80)
 
 Go cannot build struct types with promoted embedded fields at run time, so the harness carries a
 generated, committed corpus. Every top-level type T<k> comes with
@@ -239,11 +239,90 @@ class TopGen:
         return lines, "T %d %s" % (len(terms), " ".join(terms))
 
 
+class ReqGen(TopGen):
+    """request-shaped types: every field answers to ONE source (sometimes two) and most carry a
+    default - the shape handlers declare for app.Context.Bind (`cookie:"theme" default:"light"`).
+    A default of such a field can only come from the pass of its own source."""
+
+    def one_tag(self, i, forced=None):
+        r = self.r
+        base = self.key_style(i)
+        t = forced if forced is not None else r.pick(TAGS)
+        tv = {t: base}
+        if forced is None and r.chance(1, 6):
+            tv[r.pick(TAGS)] = base
+        if r.chance(1, 8):
+            tv[t] = base + "," + base + "a"
+        return tv
+
+    def nonzero_default(self, p):
+        r = self.r
+        if p in INT_RANGE:
+            return str(r.rng(1, 99))
+        if p in ("f32", "f64"):
+            return r.pick(["1.5", "0.25", "7", "1e10"])
+        if p == "b":
+            return r.pick(["true", "1", "yes", "on"])
+        if p == "s":
+            return r.pick(["light", "en", "x", "dflt", "20"])
+        if p == "t":
+            return r.pick(["2024-01-15T10:30:00Z", "2024-01-15", "1999-12-31"])
+        if p == "d":
+            return r.pick(["1h", "90s", "500ms"])
+        raise ValueError(p)
+
+    def gen_struct(self, depth, forced=None):
+        r = self.r
+        lines, terms = [], []
+        for _ in range(r.rng(2, 6) if depth == 0 else r.rng(1, 3)):
+            i = self.new_field_id()
+            k = r.n(100)
+            if depth < 2 and k < 18:
+                self.sid += 1
+                mysid = self.sid
+                embed = k < 9
+                tag = forced if forced is not None else r.pick(TAGS)
+                sl, st = self.gen_struct(depth + 1, forced if embed else tag)
+                tname = "T%dS%d" % (self.k, mysid)
+                self.decls.append("type %s struct {\n%s\n}\n" % (tname, "\n".join(sl)))
+                isptr = r.chance(2, 5)
+                gotype = ("*" if isptr else "") + tname
+                ty = ("R " if isptr else "") + st
+                if embed:
+                    lines.append(self.field_src("", gotype, {}, ""))
+                    terms.append(self.field_term(tname, True, True, {}, "", ty))
+                else:
+                    tv = {tag: self.key_style(i)}
+                    name = "N%d" % i
+                    lines.append(self.field_src(name, gotype, tv, ""))
+                    terms.append(self.field_term(name, True, False, tv, "", ty))
+                continue
+            p = r.pick(PRIM_W)
+            kk = r.n(100)
+            if kk < 62:
+                gotype, ty, kind = GO[p], "P " + p, "prim"
+            elif kk < 80:
+                gotype, ty, kind = "*" + GO[p], "R P " + p, "ptr"
+            elif kk < 94:
+                gotype, ty, kind = "[]" + GO[p], "L P " + p, "slice"
+            else:
+                gotype, ty, kind = "map[string]" + GO[p], "M P " + p, "map"
+            name = "F%d" % i
+            tv = self.one_tag(i, forced)
+            dflt = ""
+            if kind in ("prim", "ptr") and r.chance(3, 4):
+                dflt = self.nonzero_default(p) if r.chance(9, 10) else default_for(r, p)
+            lines.append(self.field_src(name, gotype, tv, dflt))
+            terms.append(self.field_term(name, True, False, tv, dflt, ty))
+        return lines, "T %d %s" % (len(terms), " ".join(terms))
+
+
 def main():
     n = int(sys.argv[1]) if len(sys.argv) > 1 else 400
+    nreq = int(sys.argv[2]) if len(sys.argv) > 2 else 80
     r = Rng(20260926)
     out = []
-    out.append("// Code generated by gen_types.py %d; DO NOT EDIT.\n" % n)
+    out.append("// Code generated by gen_types.py %d %d; DO NOT EDIT.\n" % (n, nreq))
     out.append("package main\n")
     out.append('import (\n\t"net/http"\n\t"net/url"\n\t"time"\n\n\t"rivaas.dev/binding"\n)\n')
     out.append("var _ = time.Second\n")
@@ -255,6 +334,14 @@ def main():
         if c < 4:
             chain = r.rng(1, 5)            # embedding chain of that length
         lines, term = g.gen_struct(0, chain)
+        out.extend(g.decls)
+        out.append("type T%d struct {\n%s\n}\n" % (k, "\n".join(lines)))
+        entries.append((k, term))
+    # request-shaped types, from their own stream (the first n types never change)
+    r2 = Rng(20260927)
+    for k in range(n, n + nreq):
+        g = ReqGen(r2, k)
+        lines, term = g.gen_struct(0)
         out.extend(g.decls)
         out.append("type T%d struct {\n%s\n}\n" % (k, "\n".join(lines)))
         entries.append((k, term))
